@@ -21,7 +21,7 @@ inline void reg_ctors() {
   C("Rhumb", 2, [](const double* p) { Rhumb g(p[0], p[1]); built() = true; double a, b, c; g.Direct(40, 10, 30, 1e6 * p[0] / Wa, a, b, c); g.Inverse(40, 10, 20, 50, a, b, c); });
   C("Ellipsoid", 2, [](const double* p) { Ellipsoid e(p[0], p[1]); built() = true; (void)e.MeridianDistance(40); (void)e.AuthalicLatitude(40); (void)e.Area(); });
   C("AuxLatitude", 2, [](const double* p) { AuxLatitude e(p[0], p[1]); built() = true; (void)e.Convert(AuxLatitude::PHI, AuxLatitude::XI, 40.0, false); (void)e.Convert(AuxLatitude::MU, AuxLatitude::CHI, 40.0, true); });
-  C("AuxLatitudeAxes", 2, [](const double* p) { AuxLatitude e(std::pair<double, double>(p[0], p[1])); built() = true; (void)e.Convert(AuxLatitude::PHI, AuxLatitude::XI, 40.0, false); });
+  C("AuxLatitudeAxes", 2, [](const double* p) { AuxLatitude e(AuxLatitude::axes(p[0], p[1])); built() = true; (void)e.Convert(AuxLatitude::PHI, AuxLatitude::XI, 40.0, false); });
   C("Geocentric", 2, [](const double* p) { Geocentric g(p[0], p[1]); built() = true; double a, b, c; g.Forward(40, 10, 100, a, b, c); g.Reverse(0.6 * p[0], 0.1 * p[0], 0.7 * p[0], a, b, c); });
   C("TransverseMercator", 3, [](const double* p) { TransverseMercator g(p[0], p[1], p[2]); built() = true; double a, b, c, d; g.Forward(3, 40, 5, a, b, c, d); g.Reverse(3, 0.01 * p[0], 0.3 * p[0], a, b, c, d); });
   C("TransverseMercatorX", 3, [](const double* p) { TransverseMercator g(p[0], p[1], p[2], true); built() = true; double a, b, c, d; g.Forward(3, 40, 5, a, b, c, d); g.Reverse(3, 0.01 * p[0], 0.3 * p[0], a, b, c, d); });
@@ -37,10 +37,33 @@ inline void reg_ctors() {
   C("AlbersEqualArea4", 7, [](const double* p) { AlbersEqualArea g(p[0], p[1], p[2], p[3], p[4], p[5], p[6]); built() = true; double a, b, c, d; g.Forward(3, 40, 5, a, b, c, d); g.Reverse(3, 0.01 * p[0], 0.02 * p[0], a, b, c, d); });
   C("AlbersEqualArea.SetScale", 2, [](const double* p) { AlbersEqualArea g(Wa, Wf, 30.0, 50.0, 1.0); g.SetScale(p[0], p[1]);  built() = true; });
   C("NormalGravity", 4, [](const double* p) { NormalGravity g(p[0], p[1], p[2], p[3], true); built() = true; double a, b; (void)g.Gravity(40, 100, a, b); (void)g.SurfaceGravity(40); });
+  // ---- constructors added when the list was checked against the API inventory (obligation ctor_all_have_domain) ----
+  C("RhumbX", 2, [](const double* p) { Rhumb g(p[0], p[1], true); built() = true; double a, b, c; g.Direct(40, 10, 30, 1e6 * p[0] / Wa, a, b, c); g.Inverse(40, 10, 20, 50, a, b, c); });
+  C("DAuxLatitude", 2, [](const double* p) { DAuxLatitude e(p[0], p[1]); built() = true; (void)e.DRectifying(AuxAngle(0.5), AuxAngle(0.7)); (void)e.DConvert(AuxLatitude::PHI, AuxLatitude::CHI, AuxAngle(0.5), AuxAngle(0.7)); });
+  C("NormalGravityJ2", 4, [](const double* p) { NormalGravity g(p[0], p[1], p[2], p[3], false); built() = true; double a, b; (void)g.Gravity(40, 100, a, b); (void)g.SurfaceGravity(40); });
+  C("Intersect", 2, [](const double* p) { Geodesic g(p[0], p[1]); Intersect i(g); built() = true; (void)i.Closest(0, 0, 45, 1, 2, 135); });
+  // Intersect::All validates maxdist (F78): reject = GeographicErr; accepted calls return the list
+  C("Intersect.All", 1, [](const double* p) { auto v = IX().All(0, 0, 45, 1, 2, 135, p[0]); built() = true; std::vector<int> c; auto w = IX().All(GS().Line(0, 0, 45, Intersect::LineCaps), GS().Line(1, 2, 135, Intersect::LineCaps), p[0], c); if (v.size() != w.size()) throw std::logic_error("All overloads disagree"); });
+  C("GeoCoordsLatLon", 2, [](const double* p) { GeoCoords c(p[0], p[1]); built() = true; (void)c.GeoRepresentation(); (void)c.UTMUPSRepresentation(); });
+  C("GeoCoordsUTM32N", 2, [](const double* p) { GeoCoords c(32, true, p[0], p[1]); built() = true; (void)c.GeoRepresentation(); (void)c.UTMUPSRepresentation(); });
+  C("GeoCoordsUTM32S", 2, [](const double* p) { GeoCoords c(32, false, p[0], p[1]); built() = true; (void)c.GeoRepresentation(); (void)c.UTMUPSRepresentation(); });
+  C("GeoCoordsUPSN", 2, [](const double* p) { GeoCoords c(0, true, p[0], p[1]); built() = true; (void)c.GeoRepresentation(); (void)c.UTMUPSRepresentation(); });
+  C("GeoCoordsUPSS", 2, [](const double* p) { GeoCoords c(0, false, p[0], p[1]); built() = true; (void)c.GeoRepresentation(); (void)c.UTMUPSRepresentation(); });
+  // constructors that accept every argument (the geodesic line is the documented exception to "constructors reject"; origins of local
+  // systems, angles and accumulators have no invalid values): the predicate is constantly true, the object must be usable
+  C("GeodesicLine", 3, [](const double* p) { GeodesicLine l(GS(), p[0], p[1], p[2]); built() = true; double a, b, c; l.Position(1e6, a, b, c); l.ArcPosition(9, a, b); });
+  C("GeodesicLineExact", 3, [](const double* p) { GeodesicLineExact l(GE(), p[0], p[1], p[2]); built() = true; double a, b, c; l.Position(1e6, a, b, c); l.ArcPosition(9, a, b); });
+  C("LocalCartesian", 3, [](const double* p) { LocalCartesian l(p[0], p[1], p[2]); built() = true; double a, b, c; l.Forward(41, 11, 200, a, b, c); l.Reverse(1e4, 2e4, 300, a, b, c); });
+  C("CassiniSoldner", 2, [](const double* p) { CassiniSoldner l(p[0], p[1], GS()); built() = true; double a, b; l.Forward(41, 11, a, b); l.Reverse(1e4, 2e4, a, b); });
+  C("AuxAngle", 2, [](const double* p) { AuxAngle a(p[0], p[1]); built() = true; (void)a.degrees(); (void)a.normalized(); (void)a.lam(); });
+  C("Accumulator", 1, [](const double* p) { Accumulator<> a(p[0]); built() = true; a += 1; (void)a(); });
+  C("SphericalHarmonicRadius", 1, [](const double* p) { SphericalHarmonic h(HARM().C, HARM().S, 4, p[0]); built() = true; double a, b, c; (void)h(4e6, 1e6, 4.5e6, a, b, c); });
   C("EllipticFunction2", 2, [](const double* p) { EllipticFunction e(p[0], p[1]); built() = true; (void)e.F(0.7); (void)e.E(0.7); (void)e.Pi(0.7); });
   C("EllipticFunction4", 4, [](const double* p) { EllipticFunction e(p[0], p[1], p[2], p[3]); built() = true; (void)e.F(0.7); (void)e.E(0.7); });
 }
 
+static Reg r_ctorclass("c13_ctorclass", [](const Args&) { emit("-"); });
+static Reg r_ctorcount("c13_ctorcount", [](const Args&) { emit("-"); });
 inline std::map<std::string, int>& ctor_hangs() { static std::map<std::string, int> h; return h; }
 static Reg r_ctor("c13_ctor", [](const Args& a) {
   reg_ctors();
@@ -86,8 +109,26 @@ inline double ctor_value(Rng& r, int kind) {
   case 2: { static const std::vector<double> v = {1, 0.9996, 0.994, 1e-10, 1e10, 2.2250738585072014e-308}; return k < 7 ? r.pick(v) : k < 9 ? r.range(-0.5, 2) : std::ldexp(r.range(1, 2), r.irange(-1074, 1023)); }
   case 3: { static const std::vector<double> v = {0, -0.0, 30, 50, -40, -20, 90, -90, gv::nextup(90.0), gv::nextdn(-90.0), gv::nextdn(90.0), gv::nextup(-90.0), 91, -91, 180, 45, -45, 1e-300, 89.99999}; return k < 7 ? r.pick(v) : r.range(-100, 100); }
   case 4: { static const std::vector<double> v = {0, -0.0, 1, -1, 0.5, -0.5, 0.6, 0.8, -0.8, gv::nextup(1.0), gv::nextdn(1.0), 2, 1e-300, -1e-300, 0.7071067811865476}; return k < 7 ? r.pick(v) : r.range(-1.2, 1.2); }
+  case 7: { static const std::vector<double> v = {0, 1e4, 3e7, 1e8, 1e13, 1e15, -5, 2e7}; return r.pick(v); }
+  case 6: { static const std::vector<double> v = {5e5, 4.4e6, 0, 1e5, 9e5, 1e6, 2e6, 2.1e6, 9.6e6, 1e7, -9.1e6, 8e5, 3.2e6, 1.3e6, 5.6e6}; return k < 7 ? r.pick(v) : r.range(-1e7, 1e7); }
   default: { static const std::vector<double> v = {0, 1, -1, 0.3, 0.2, 2, gv::nextup(1.0), gv::nextdn(1.0), 1e300, -1e300, 3.986004418e14, 7.292115e-5, 1e-160, 1e160}; return k < 7 ? r.pick(v) : std::ldexp(r.range(-2, 2), r.irange(-1074, 1023)); }
   }
+}
+
+// the degenerate / limit values of each kind of parameter: every one of them is tried at every parameter position of every constructor
+inline const std::vector<double>& ctor_limits(int kind) {
+  const double NaN = std::nan(""), Inf = INFINITY, dmin = 2.2250738585072014e-308, dmax = 1.7976931348623157e308, den = 5e-324;
+  static const std::vector<double> k0 = {0.0, -0.0, den, -den, dmin, 1e-300, 1e300, 1e308, dmax, -1, -Wa, NaN, Inf, -Inf};
+  static const std::vector<double> k1 = {0.0, -0.0, den, -den, 1e-300, 1, gv::nextdn(1.0), gv::nextup(1.0), 2, 1e308, -1e308, -1, -10, 0.99, NaN, Inf, -Inf};
+  static const std::vector<double> k2 = {0.0, -0.0, den, -den, dmin, 1e308, dmax, -1, NaN, Inf, -Inf};
+  static const std::vector<double> k3 = {0.0, -0.0, 90, -90, gv::nextup(90.0), gv::nextdn(-90.0), 91, -91, 180, den, 1e308, NaN, Inf, -Inf};
+  static const std::vector<double> k4 = {0.0, -0.0, 1, -1, gv::nextup(1.0), 2, den, -den, 1e308, NaN, Inf, -Inf};
+  static const std::vector<double> k5 = {0.0, -0.0, den, -den, 1, -1, 1e100, -1e100, 1e300, -1e300, 1e308, -1e308, dmax, NaN, Inf, -Inf};
+  // 7: Intersect::All maxdist (metres): nothing between 2e8 and 1e13 (legal but quadratic cost / the exact limit depends on d3)
+  static const std::vector<double> k7 = {0.0, -0.0, den, -den, -1, -1e308, 1, 1e4, 3e7, 1e8, 1e13, 1e17, 9007199254740992.0, 1e300, 1e308, dmax, NaN, Inf, -Inf};
+  // 6: UTM / UPS coordinate (metres)
+  static const std::vector<double> k6 = {0.0, -0.0, den, -den, 1e5, 9e5, 1e6, gv::nextup(1e6), 9.6e6, -9.1e6, 1e7, 4e6, -1, 1e308, NaN, Inf, -Inf};
+  switch (kind) { case 0: return k0; case 1: return k1; case 2: return k2; case 3: return k3; case 4: return k4; case 6: return k6; case 7: return k7; default: return k5; }
 }
 
 inline void gen_ctor(Rng& r, bool thorough) {
@@ -103,7 +144,16 @@ inline void gen_ctor(Rng& r, bool thorough) {
     {"AlbersEqualArea1", {0, 1, 3, 2}, {Wa, Wf, 40, 1}}, {"AlbersEqualArea2", {0, 1, 3, 3, 2}, {Wa, Wf, 30, 50, 1}},
     {"AlbersEqualArea4", {0, 1, 4, 4, 4, 4, 2}, {Wa, Wf, 0.5, 0.8660254037844386, 0.766, 0.6428, 1}}, {"AlbersEqualArea.SetScale", {3, 2}, {40, 0.99}},
     {"NormalGravity", {0, 5, 5, 1}, {Wa, 3.986004418e14, 7.292115e-5, Wf}}, {"EllipticFunction2", {5, 5}, {0.3, 0.2}}, {"EllipticFunction4", {5, 5, 5, 5}, {0.3, 0.2, 0.7, 0.8}},
+    {"RhumbX", {0, 1}, {Wa, Wf}}, {"DAuxLatitude", {0, 1}, {Wa, Wf}}, {"NormalGravityJ2", {0, 5, 5, 5}, {Wa, 3.986004418e14, 7.292115e-5, 1.08263e-3}}, {"Intersect", {0, 1}, {Wa, Wf}}, {"Intersect.All", {7}, {3e7}},
+    {"GeoCoordsLatLon", {3, 3}, {40, 10}}, {"GeoCoordsUTM32N", {6, 6}, {5e5, 4.4e6}}, {"GeoCoordsUTM32S", {6, 6}, {4e5, 5.6e6}}, {"GeoCoordsUPSN", {6, 6}, {2.1e6, 2.2e6}}, {"GeoCoordsUPSS", {6, 6}, {1.9e6, 2.2e6}},
+    {"GeodesicLine", {3, 3, 3}, {40, 10, 30}}, {"GeodesicLineExact", {3, 3, 3}, {40, 10, 30}}, {"LocalCartesian", {3, 3, 5}, {40, 10, 100}}, {"CassiniSoldner", {3, 3}, {40, 10}},
+    {"AuxAngle", {4, 4}, {0.6, 0.8}}, {"Accumulator", {5}, {1.5}}, {"SphericalHarmonicRadius", {0}, {6371e3}},
   };
+  // every constructor class the harness drives must be a class of the Lean list `ErrContract.ctorTable` with the same number of
+  // parameters, and there must be no further class there (verdicts in Corr/C13.lean)
+  stratum("table-crosscheck");
+  for (auto& k : ks) run("c13_ctorclass", {k.n, std::to_string(k.kinds.size())});
+  run("c13_ctorcount", {std::to_string(ks.size())});
   int n = thorough ? 60 : 14;
   for (auto& k : ks) {
     auto emitc = [&](const std::vector<double>& p) {
@@ -112,6 +162,9 @@ inline void gen_ctor(Rng& r, bool thorough) {
       if (extreme && ctor_hangs()[k.n] >= 2) { stat("skipped_after_two_hangs"); return; }
       Args a{k.n}; for (double v : p) a.push_back(hx(v)); runx("c13_ctor", a); };
     stratum("ctor-valid"); emitc(k.good);
+    // every degenerate / limit value at every parameter position (0, -0, denormals, huge, f = 1, f > 1, NaN, +-inf, poles ...)
+    for (size_t i = 0; i < k.kinds.size(); ++i)
+      for (double v : ctor_limits(k.kinds[i])) { stratum(std::isnan(v) ? "ctor-limit-nan" : std::isinf(v) ? "ctor-limit-inf" : "ctor-limit"); auto p = k.good; p[i] = v; emitc(p); }
     // one parameter replaced by each kind of bad value, the others valid (the documented domain is a product of ranges)
     for (size_t i = 0; i < k.kinds.size(); ++i)
       for (int j = 0; j < (thorough ? 16 : 6); ++j) { stratum("ctor-one-bad"); auto p = k.good; p[i] = ctor_value(r, k.kinds[i]); emitc(p); }
